@@ -516,6 +516,8 @@ def debug_noninterference_obligations(rep):
     msrc = ast.unparse(fn) if fn else ''
     if not re.search(r'for s in source:', msrc) or 'outf.write(pythoncode)' not in msrc:
         probs.append('main does not write the code of every source in order')
+    if fn is not None and any(isinstance(n, ast.Name) and n.id == 'source' and isinstance(n.ctx, (ast.Store, ast.Del)) for n in ast.walk(fn)):
+        probs.append('main rebinds its `source` argument: the sources compiled are not the ones given, in the order given')
     rep.add_checked('compiler.main.cli_equals_library', not probs, '; '.join(probs), 'ast', function='compiler.main', witness=probs or None)
 
 
